@@ -162,6 +162,11 @@ fn replay_one(v: &Value) -> Result<u64, Value> {
             .symbol_fn("Leaf", |_| TypedProbe { ty: "Leaf" })
             .symbol_fn("Leaf2", |_| TypedProbe { ty: "Leaf2" })
             .symbol_fn("Other", |_| TypedProbe { ty: "Other" })
+            .symbol_fn("Iface", |_| TypedProbe { ty: "Iface" })
+            .symbol_fn("ImplMore", |_| TypedProbe { ty: "ImplMore" })
+            .symbol_fn("ImplLess", |_| TypedProbe { ty: "ImplLess" })
+            .symbol_fn("ImplGateLess", |_| TypedProbe { ty: "ImplGateLess" })
+            .symbol_fn("GBox", |_| TypedProbe { ty: "GBox" })
             .symbol_fn("Box", |_| TypedProbe { ty: "Box" })
             .symbol_fn("Mid", |_| TypedProbe { ty: "Mid" })
             .symbol_fn("Main", |_| TypedProbe { ty: "Main" });
